@@ -73,17 +73,26 @@ def check(ctx):
     chain_fns = [mir.fns[k] for k in st.chain if k != w.key]
     n_fwd = 0
     tops = []
+    from ..mir import closure_loop_context, lift_closure_canon
     for fn in chain_fns:
         fex = Exprs(fn)
         fsp, fip = param_of_type(fn, "::StateIndex"), param_of_type(fn, "::StateItem")
+        # a closure handed to try_for_each / for_each is the body of a loop in its parent: read it in the parent's terms
+        cctx = closure_loop_context(mir, fn) if fn.kind == "Closure" else None
+        if cctx is not None:
+            fsp, fip = param_of_type(cctx[0], "::StateIndex"), param_of_type(cctx[0], "::StateItem")
         for c in fn.calls():
             if not (c.local and c.rkey in st.chain | {w.key}):
                 continue
             callee = mir.fns[c.rkey]
+            if callee.kind == "Closure" and closure_loop_context(mir, callee) is not None:
+                continue
             csp, cip = param_of_type(callee, "::StateIndex"), param_of_type(callee, "::StateItem")
             for (kind, cps, fps) in (("state", csp, fsp), ("item", cip, fip)):
                 for cp in cps:
                     got = canon(fex.operand(c.args[cp - 1]))
+                    if cctx is not None:
+                        got = lift_closure_canon(got, cctx)
                     n_fwd += 1
                     key = "%s->%s|%s" % (fn.path.rsplit("::", 1)[-1], callee.path.rsplit("::", 1)[-1], kind)
                     if fps:
@@ -95,6 +104,9 @@ def check(ctx):
                         tops.append((fn, c, kind, got))
     for (fn, c, kind, got) in tops:
         key = "top|%s|%s" % (fn.path.rsplit("::", 1)[-1], kind)
+        cctx = closure_loop_context(mir, fn) if fn.kind == "Closure" else None
+        if cctx is not None:
+            fn = cctx[0]
         if kind == "state":
             ok = bool(re.match(r"^StateIndex::StateIndex\{\(range::next\(IntoIterator@\w+::into_iter\(Range::Range\{const\(0_usize\), (slice|Vec)::len\((Deref@Oset::deref\()?param1\.(\w+)\.states\)?\)\}\)\) as Some\)\.0\}$", got))
             ok = ok or bool(re.match(r"^StateIndex::StateIndex\{\(Iterator@Enumerate::next\(IntoIterator@\w+::into_iter\(Iterator::enumerate\(slice::iter\((Deref@Oset::deref\()?param1\.(\w+)\.states\)?\)\)\)\) as Some\)\.0\.0\}$", got))
